@@ -515,6 +515,48 @@ func C19(c *Ctx) {
 		}
 	}
 	r.MinRule("C19-a", 20)
+	// map iterators from the standard library are map ranges in disguise
+	for _, sfx := range []string{"", "ast", "builder"} {
+		p := g.Pkg(sfx)
+		for _, fd := range load.AllFuncDecls(p) {
+			if fd.Body == nil || isGen(g.Fset.Position(fd.Pos()).Filename) {
+				continue
+			}
+			var stack []ast.Node
+			n := 0
+			ast.Inspect(fd.Body, func(nd ast.Node) bool {
+				if nd == nil {
+					stack = stack[:len(stack)-1]
+					return true
+				}
+				stack = append(stack, nd)
+				ce, ok := nd.(*ast.CallExpr)
+				if !ok {
+					return true
+				}
+				cn := callName(ce)
+				if cn != "maps.Keys" && cn != "maps.Values" && cn != "maps.All" && !strings.HasSuffix(cn, ".MapRange") && !strings.HasSuffix(cn, ".MapKeys") {
+					return true
+				}
+				n++
+				construct := fmt.Sprintf("G.%s.%s:%s(%s)#%d", p.Types.Name(), fd.Name.Name, cn, nospace(ce.Args[0]), n)
+				sorted := false
+				for i := len(stack) - 2; i >= 0 && !sorted; i-- {
+					if pc, ok := stack[i].(*ast.CallExpr); ok {
+						if pn := callName(pc); pn == "slices.Sorted" || pn == "slices.SortedFunc" || pn == "slices.SortedStableFunc" {
+							sorted = true
+						}
+					}
+				}
+				if sorted {
+					r.Ok("C19-a", construct, "", g.Where(ce.Pos()), "map iterator consumed through slices.Sorted")
+				} else {
+					r.Bad("C19-a", construct, "", g.Where(ce.Pos()), "iterates a map in Go's random order (the result is not passed through slices.Sorted): the order can reach the generated file")
+				}
+				return true
+			})
+		}
+	}
 	// ---- b
 	var bad []string
 	for _, sfx := range []string{"", "ast", "builder"} {
